@@ -116,6 +116,7 @@ def _work(task):
       for tails in TAILS:
         rep0 = None
         well_conditioned = True
+        mean_rtol = 1e-8
         in_domain = True
         for thr in (0.0, 0.5):
           if quick and thr != 0.0 and tails == 1:
@@ -241,6 +242,16 @@ def _work(task):
             # |loc|/|den|): outside the non-degenerate-cost domain for the
             # float comparisons of the mean
             well_conditioned = bool(np.min(np.abs(den)) > 1e-3 * abs(c_loc))
+            # condition number of the MEAN of the ratios with respect to
+            # relative perturbations of the posterior location / scale (the
+            # TBR fit is equivariant only up to rounding, ~1e-13): heavy
+            # tailed draws (1-2 d.f.) put simulated costs near zero, whose
+            # ratios dominate the mean and amplify that rounding
+            amp = (abs(c_loc) + np.abs(c_scale * z)) / np.abs(den)
+            cond = float(np.sum(np.abs(sims) * amp) / max(
+                abs(float(np.sum(sims))), 1e-300))
+            well_conditioned = well_conditioned and cond < 1e6
+            mean_rtol = max(1e-8, 1e-10 * cond)
             exp = dict(estimate=float(np.mean(sims)),
                        lower=float(np.percentile(sims, 100 * tail_p)),
                        upper=(np.inf if tails == 1 else float(
@@ -249,7 +260,9 @@ def _work(task):
             for name, val in exp.items():
               if name == 'estimate' and not well_conditioned:
                 continue
-              if not L.close(_row(rep, name), val, rtol=1e-7,
+              if not L.close(_row(rep, name), val,
+                             rtol=max(1e-7, mean_rtol) if name == 'estimate'
+                             else 1e-7,
                              atol=1e-12 if name == 'probability' else 0.0):
                 col.violation('C07/variable/%s=function-of-data-and-'
                               'random_state' % name, inp)
@@ -270,7 +283,13 @@ def _work(task):
           if rep2['scenario'].iloc[0] != scen0:
             col.violation('C07/equivariance/scenario-unchanged', dict(
                 inp, non_incremental_cost=s_non_incr), reg)
-          ok = all(L.close(_row(rep2, c), _row(rep0, c) * b / a)
+          # the mean-based figures carry the rounding of the (only
+          # approximately equivariant) TBR fit amplified by the conditioning
+          # of the mean of heavy-tailed ratios
+          est_tol = mean_rtol * abs(_row(rep0, 'estimate') * b / a)
+          ok = all(L.close(_row(rep2, c), _row(rep0, c) * b / a,
+                           atol=est_tol if c in ('estimate', 'precision')
+                           else 0.0)
                    for c in figs)
           ok = ok and all(L.close(_row(rep2, c), _row(rep0, c), atol=1e-12)
                           for c in INV)
@@ -381,7 +400,9 @@ def run(tier, seed):
   res.notes.append(
       'variable-cost scenario: comparisons of the simulated MEAN (estimate, '
       'precision) to 1e-8 are made only when no simulated cost lies within '
-      '1e-3 |loc| of zero (conditioning of the mean of ratios)')
+      '1e-3 |loc| of zero and the condition number of the mean of the ratios '
+      'w.r.t. the posterior parameters is below 1e4 (heavy-tailed draws '
+      'amplify the ~1e-13 rounding of the TBR fit)')
   return res
 
 
